@@ -20,6 +20,7 @@ type c13Case struct {
 	Failure   string `json:"failure"` // "err" | status code
 	Exclude   string `json:"exclude"` // "" | must-revalidate | no-cache | no-cache-fields | req-no-cache | req-max-age0
 	ReqExtra  string `json:"req_extra,omitempty"`
+	NText     string `json:"n_text,omitempty"` // the directive's argument as sent, when it is too large for N
 }
 
 func c13Cases(thorough bool) []c13Case {
@@ -50,6 +51,19 @@ func c13Cases(thorough bool) []c13Case {
 			}
 		}
 	}
+	// windows too large to represent: they act as (at least) 2^31 s, so any
+	// reachable staleness is inside them
+	for _, txt := range []string{"9223372036", "9223372037", "18446744073709551616", "99999999999999999999999"} {
+		for _, pl := range []string{"stored", "request", "both"} {
+			for _, f := range fails {
+				for _, st := range []int64{5, 100000} {
+					for _, e := range []string{"", "must-revalidate"} {
+						out = append(out, c13Case{Placement: pl, N: 1 << 40, N2: 1 << 40, NText: txt, StaleS: st, Failure: f, Exclude: e})
+					}
+				}
+			}
+		}
+	}
 	// status sweep 400-599 with the directive on the stored response, inside the window
 	for st := 400; st <= 599; st++ {
 		out = append(out, c13Case{Placement: "stored", N: 3600, StaleS: 10, Failure: strconv.Itoa(st)})
@@ -61,6 +75,13 @@ func c13Cases(thorough bool) []c13Case {
 	return out
 }
 
+func c13N(c c13Case, n int64) string {
+	if c.NText != "" {
+		return c.NText
+	}
+	return itoa(n)
+}
+
 func TestC13(t *testing.T) {
 	r := run.Start(t, "C13", "scenario")
 	defer r.Finish()
@@ -68,10 +89,10 @@ func TestC13(t *testing.T) {
 	r.SetExhaustive(true)
 	for i, c := range cases {
 		if !r.Thorough() {
-			// quick: a seeded ~15 % sample plus the whole status sweep
+			// quick: a seeded ~40 % sample plus the whole status sweep and the unrepresentable windows
 			rng := r.Rand(i)
 			if c.Failure == "err" || len(c.Failure) == 3 && (c.Failure[0] == '5' && (c.Failure == "500" || c.Failure == "502" || c.Failure == "503" || c.Failure == "504")) {
-				if rng.IntN(100) >= 15 {
+				if rng.IntN(100) >= 40 && c.NText == "" {
 					continue
 				}
 			}
@@ -91,7 +112,7 @@ func c13Run(r *run.Runner, c c13Case) {
 	const L = 10
 	storedCC := "max-age=" + itoa(L)
 	if c.Placement == "stored" || c.Placement == "both" {
-		storedCC += ", stale-if-error=" + itoa(c.N)
+		storedCC += ", stale-if-error=" + c13N(c, c.N)
 	}
 	switch c.Exclude {
 	case "must-revalidate":
@@ -136,7 +157,7 @@ func c13Run(r *run.Runner, c c13Case) {
 		reqN = c.N2
 	}
 	if c.Placement == "request" || c.Placement == "both" {
-		reqCC = append(reqCC, "stale-if-error="+itoa(reqN))
+		reqCC = append(reqCC, "stale-if-error="+c13N(c, reqN))
 	}
 	if c.Exclude == "req-no-cache" {
 		reqCC = append(reqCC, "no-cache")
